@@ -752,8 +752,14 @@ impl<'a, R: CharRead> Lexer<'a, R> {
 
         if c == '_' {
             self.skip_char(c);
-            self.scan_for_layout()?;
-            c = self.lookahead_char()?;
+
+            // a digit has to follow the separator: the end of the input
+            // here is not the end of the number.
+            c = match self.scan_for_layout().and_then(|_| self.lookahead_char()) {
+                Ok(c) => c,
+                Err(e) if e.is_unexpected_eof() => return Err(self.parse_big_int_error()),
+                Err(e) => return Err(e),
+            };
 
             if decimal_digit_char!(c) {
                 Ok(c)
